@@ -35,7 +35,8 @@ def sh(cmd, cwd=None, timeout=600):
 
 def main():
     only = sys.argv[1:] or None
-    rnd = 'second round (asked for rarer triggers; told what round one had done)' if RENAME.get('A') != 'A' else 'first round'
+    rnd = os.environ.get('SEED_ROUND') or (
+        'second round (asked for rarer triggers; told what round one had done)' if RENAME.get('A') != 'A' else 'first round')
     kept = []
     for prop in sorted(os.listdir(SRC)):
         d = os.path.join(SRC, prop)
@@ -85,7 +86,7 @@ def main():
                     'id': '%s-%s' % (prop, RENAME[v]),
                     'breaks_property': (meta_all.get(v, {}) or {}).get('property') or prop,
                     'summary': m.get('summary'),
-                    'needs_to_manifest': m.get('needs'),
+                    'needs_to_manifest': m.get('needs') or m.get('needs_to_manifest'),
                     'files': files,
                     'origin': 'independent sub-agent given only the property text and a scratch worktree of /repo; ' + rnd,
                     'confirmed': {
